@@ -83,13 +83,107 @@ package allocator
 //@     (forall x string, s string, p Port :: OwnsPortG(s in a.servicesOnIP[x], a.allocated[s], on, svc, al, i, j, s, x, p) ==> (p in a.portsInUse[x]) && a.portsInUse[x][p] == s)
 //@     && (forall x string, p Port :: { mapdom(mapval(a.portsInUse, x), p) } (p in a.portsInUse[x]) ==>
 //@             OwnsPortG(a.portsInUse[x][p] in a.servicesOnIP[x], a.allocated[a.portsInUse[x][p]], on, svc, al, i, j, a.portsInUse[x][p], x, p))
+// I3: sharingKeyForIP[x] exists exactly when portsInUse[x] does, which is the case whenever somebody holds x;
+// it equals the key of every holder, and two different holders imply a non-empty sharing key.
+//@ fun RecG(a *Allocator, on bool, svc string, al *alloc, s string) *alloc := ite(on && s == svc, al, a.allocated[s])
+//@ pred InvKeys(a *Allocator, on bool, svc string, al *alloc) :=
+//@     (forall x string :: (a.sharingKeyForIP[x] != nil) == (x in a.portsInUse))
+//@     && (forall x string, s string :: (s in a.servicesOnIP[x]) ==> (x in a.portsInUse))
+//@     && (forall x string, s string :: (s in a.servicesOnIP[x]) ==>
+//@             a.sharingKeyForIP[x].sharing == RecG(a, on, svc, al, s).sharing && a.sharingKeyForIP[x].backend == RecG(a, on, svc, al, s).backend)
+//@     && (forall x string, s1 string, s2 string :: s1 != s2 && (s1 in a.servicesOnIP[x]) && (s2 in a.servicesOnIP[x]) ==> RecG(a, on, svc, al, s1).sharing != "")
 //@ pred InvAllocs(a *Allocator, on bool, al *alloc) :=
 //@     (forall s string :: a.allocated[s] != nil ==> WFAlloc(a.allocated[s]) && PoolMapsFor(a, a.allocated[s].pool))
 //@     && (on ==> WFAlloc(al) && PoolMapsFor(a, al.pool))
 //@ pred InvG(a *Allocator, on bool, svc string, al *alloc, i int, j int) :=
-//@     InvMaps(a) && InvSvc(a, on, svc, al, i) && InvPorts(a, on, svc, al, i, j) && InvAllocs(a, on, al)
+//@     InvMaps(a) && InvSvc(a, on, svc, al, i) && InvPorts(a, on, svc, al, i, j) && InvKeys(a, on, svc, al) && InvAllocs(a, on, al)
 //@ pred Inv(a *Allocator) := InvG(a, false, "", nil, 0, 0)
 
+// ---- the same invariant while `assign` is recording al for svc: allocated[svc] == al already, but only the
+// addresses al.ips[0..i) are recorded, and for al.ips[i] only the ports al.ports[0..j). ----
+//@ opaque pred DonePort(al *alloc, i int, j int, x string, p Port) :=
+//@     0 <= i && i < len(al.ips) && net.ipstr(al.ips[i]) == x && (exists m int :: 0 <= m && m < j && m < len(al.ports) && al.ports[m] == p)
+// HoldsA: s counts as recorded on x.
+//@ opaque pred HoldsA(cur *alloc, on bool, svc string, i int, s string, x string) :=
+//@     cur != nil && HasIP(cur, x) && !(on && s == svc && PendingIP(cur, i, x))
+// OwnsPortA: s is recorded as user of port p on x.
+//@ opaque pred OwnsPortA(in bool, cur *alloc, s string, p Port) := in && cur != nil && HasPort(cur, p)
+//@ pred InvSvcA(a *Allocator, on bool, svc string, i int) :=
+//@     forall x string, s string :: (s in a.servicesOnIP[x]) == HoldsA(a.allocated[s], on, svc, i, s, x)
+// ports: recorded users own their ports; for the address being recorded (al.ips[i]) svc already owns al.ports[0..j)
+//@ pred InvPortsA(a *Allocator, on bool, svc string, al *alloc, i int, j int) :=
+//@     (forall x string, s string, p Port :: OwnsPortA(s in a.servicesOnIP[x], a.allocated[s], s, p) ==> (p in a.portsInUse[x]) && a.portsInUse[x][p] == s)
+//@     && (forall x string, p Port :: { mapdom(mapval(a.portsInUse, x), p) } (p in a.portsInUse[x]) ==>
+//@             (OwnsPortA(a.portsInUse[x][p] in a.servicesOnIP[x], a.allocated[a.portsInUse[x][p]], a.portsInUse[x][p], p)
+//@              || (on && a.portsInUse[x][p] == svc && DonePort(al, i, j, x, p))))
+//@ pred InvKeysA(a *Allocator, on bool, svc string, al *alloc, i int) :=
+//@     (forall x string :: (a.sharingKeyForIP[x] != nil) == (x in a.portsInUse))
+//@     && (forall x string, s string :: (s in a.servicesOnIP[x]) ==> (x in a.portsInUse))
+//@     && (forall x string, s string :: (s in a.servicesOnIP[x]) ==>
+//@             a.sharingKeyForIP[x].sharing == a.allocated[s].sharing && a.sharingKeyForIP[x].backend == a.allocated[s].backend)
+//@     && (forall x string, s1 string, s2 string :: s1 != s2 && (s1 in a.servicesOnIP[x]) && (s2 in a.servicesOnIP[x]) ==> a.allocated[s1].sharing != "")
+
+// SafeFor: recording al for svc keeps the invariant: every OTHER service recorded on one of al's addresses has
+// al's (non-empty) sharing key and backend key and uses none of al's ports.
+//@ pred SafeFor(a *Allocator, svc string, al *alloc) :=
+//@     forall x string, s string :: s != svc && (s in a.servicesOnIP[x]) && HasIP(al, x) ==>
+//@         a.allocated[s].sharing == al.sharing && al.sharing != "" && a.allocated[s].backend == al.backend
+//@         && (forall p Port :: HasPort(al, p) ==> !HasPort(a.allocated[s], p))
+
+//@ func (*Allocator).assign
+//@   requires Inv(a) && a.countersChangedCallback != nil && WFAlloc(alloc) && alloc.pool in a.pools.ByName && SafeFor(a, svc, alloc)
+//@   requires forall s string :: a.allocated[s] != alloc || s == svc
+//@   ensures Inv(a)
+//@   ensures a.allocated[svc] == alloc
+//@   ensures forall s string :: s != svc ==> a.allocated[s] == old(a.allocated[s])
+//@   loop 1 invariant a.allocated[svc] == alloc && alloc == old(alloc) && svc == old(svc)
+//@   loop 1 invariant forall s string :: s != svc ==> a.allocated[s] == old(a.allocated[s])
+//@   loop 1 invariant InvMaps(a)
+//@   loop 1 invariant forall s string :: a.allocated[s] != nil ==> WFAlloc(a.allocated[s])
+//@   loop 1 invariant forall s string :: a.allocated[s] != nil && s != svc ==> PoolMapsFor(a, a.allocated[s].pool)
+//@   loop 1 invariant iter > 0 ==> PoolMapsFor(a, alloc.pool)
+//@   loop 1 invariant InvSvcA(a, true, svc, iter)
+//@   loop 1 invariant alloc.pool in a.pools.ByName
+//@   loop 1 invariant SafeFor(a, svc, alloc)
+//@   loop 1 invariant InvPortsA(a, true, svc, alloc, iter, 0)
+//@   loop 1 invariant InvKeysA(a, true, svc, alloc, iter)
+//@   loop 2 invariant 0 <= idx(1) && idx(1) < len(alloc.ips) && a.portsInUse[net.ipstr(ip)] != nil && net.ipstr(ip) in a.portsInUse
+//@   loop 2 invariant a.sharingKeyForIP[net.ipstr(ip)] == &alloc.key
+//@   loop 2 invariant InvPortsA(a, true, svc, alloc, idx(1), iter)
+//@   loop 2 invariant forall p Port :: DonePort(alloc, idx(1), iter, net.ipstr(ip), p) ==> (p in a.portsInUse[net.ipstr(ip)]) && a.portsInUse[net.ipstr(ip)][p] == svc
+//@   loop 2 invariant !(svc in a.servicesOnIP[net.ipstr(ip)])
+//@   assert after Unassign: [safe] SafeFor(a, svc, alloc)
+//@   assert before updatePoolStats: [exitPend] forall cur *alloc, x string :: !PendingIP(cur, len(cur.ips), x)
+//@   assert before updatePoolStats: [exitHolds] forall cur *alloc, s string, x string :: (s == svc ==> cur == alloc) ==> HoldsA(cur, true, svc, len(alloc.ips), s, x) == HoldsG(cur, false, "", nil, 0, s, x)
+//@   assert before updatePoolStats: [exitOwns] forall in bool, cur *alloc, s string, x string, p Port :: cur != nil ==> OwnsPortA(in, cur, s, p) == OwnsPortG(in, cur, false, "", nil, 0, 0, s, x, p)
+//@   assert before updatePoolStats: [exitSvc] InvSvc(a, false, "", nil, 0)
+//@   assert before updatePoolStats: [exitPorts] InvPorts(a, false, "", nil, 0, 0)
+//@   assert before updatePoolStats: [exitKeys] InvKeys(a, false, "", nil)
+//@   assert before updatePoolStats: [exitAllocs] InvAllocs(a, false, nil)
+//@   assert before len#1: [safe2] SafeFor(a, svc, alloc)
+//@   assert before len#1: [svcNowhere] forall x string :: !(svc in a.servicesOnIP[x])
+//@   assert before len#1: [entryOwns] forall in bool, cur *alloc, s string, x string, p Port :: cur != nil ==> OwnsPortA(in, cur, s, p) == OwnsPortG(in, cur, false, "", nil, 0, 0, s, x, p)
+//@   assert before len#1: [entryDone] forall x string, p Port :: !DonePort(alloc, 0, 0, x, p)
+//@   assert before len#1: [entryPorts] InvPortsA(a, true, svc, alloc, 0, 0)
+//@   assert before To4#1: [hasIPHere] HasIP(alloc, net.ipstr(ip))
+//@   assert before To4#1: [keyHere] a.sharingKeyForIP[net.ipstr(ip)] == &alloc.key && (net.ipstr(ip) in a.portsInUse) && (svc in a.servicesOnIP[net.ipstr(ip)])
+//@   assert before To4#1: [othersSame] forall x string, s string :: x != net.ipstr(ip) ==> a.sharingKeyForIP[x] == head(a.sharingKeyForIP[x])
+//@   assert before To4#1: [doneAll] forall p Port :: HasPort(alloc, p) ==> DonePort(alloc, idx(1), len(alloc.ports), net.ipstr(ip), p)
+//@   assert before To4#1: [doneNone] forall x string, p Port :: !DonePort(alloc, idx(1) + 1, 0, x, p)
+//@   assert before To4#1: [mine] forall p Port :: HasPort(alloc, p) ==> (p in a.portsInUse[net.ipstr(ip)]) && a.portsInUse[net.ipstr(ip)][p] == svc
+//@   assert before To4#1: [portsNext1] forall x string, s string, p Port :: OwnsPortA(s in a.servicesOnIP[x], a.allocated[s], s, p) ==> (p in a.portsInUse[x]) && a.portsInUse[x][p] == s
+//@   assert before To4#1: [portsNext] InvPortsA(a, true, svc, alloc, idx(1) + 1, 0)
+//@   assert before To4#1: [k1] forall x string :: (a.sharingKeyForIP[x] != nil) == (x in a.portsInUse)
+//@   assert before To4#1: [k2] forall x string, s string :: (s in a.servicesOnIP[x]) ==> (x in a.portsInUse)
+//@   assert before To4#1: [k3] forall x string, s string :: (s in a.servicesOnIP[x]) ==>
+//@       a.sharingKeyForIP[x].sharing == a.allocated[s].sharing && a.sharingKeyForIP[x].backend == a.allocated[s].backend
+//@   assert before To4#1: [othersKey] forall s string :: s != svc && (s in a.servicesOnIP[net.ipstr(ip)]) ==> a.allocated[s].sharing == alloc.sharing && alloc.sharing != ""
+//@   assert before To4#1: [sameOthers] forall x string, s string :: x != net.ipstr(ip) ==> (s in a.servicesOnIP[x]) == head(s in a.servicesOnIP[x])
+//@   assert before To4#1: [sameHere] let xi := net.ipstr(ip) in forall s string :: s != svc ==> (s in a.servicesOnIP[xi]) == head(s in a.servicesOnIP[xi])
+//@   assert before To4#1: [k4b] forall x string, s1 string, s2 string :: x != net.ipstr(ip) && s1 != s2 && (s1 in a.servicesOnIP[x]) && (s2 in a.servicesOnIP[x]) ==> a.allocated[s1].sharing != ""
+//@   assert before To4#1: [k4c] forall s1 string, s2 string :: s1 != s2 && (s1 in a.servicesOnIP[net.ipstr(ip)]) && (s2 in a.servicesOnIP[net.ipstr(ip)]) ==> a.allocated[s1].sharing != ""
+//@   assert before To4#1: [k4] forall x string, s1 string, s2 string :: s1 != s2 && (s1 in a.servicesOnIP[x]) && (s2 in a.servicesOnIP[x]) ==> a.allocated[s1].sharing != ""
+//@   assert before To4#1: [keysNext] InvKeysA(a, true, svc, alloc, idx(1) + 1)
 //@ func deleteStatsFor
 //@   modifies nothing
 //@ func field:go.universe.tf/metallb/internal/allocator.Allocator.countersChangedCallback
@@ -117,12 +211,15 @@ package allocator
 //@   ensures Inv(a)
 //@   ensures a.allocated[svc] == nil
 //@   ensures forall s string :: s != svc ==> a.allocated[s] == old(a.allocated[s])
+//@   ensures [poolsSame] forall n string :: (n in a.pools.ByName) == old(n in a.pools.ByName) && a.pools.ByName[n] == old(a.pools.ByName[n])
 //@   loop 1 invariant al != nil && al == old(a.allocated[svc]) && a.allocated[svc] == nil
 //@   loop 1 invariant forall s string :: s != svc ==> a.allocated[s] == old(a.allocated[s])
+//@   loop 1 invariant forall n string :: (n in a.pools.ByName) == old(n in a.pools.ByName) && a.pools.ByName[n] == old(a.pools.ByName[n])
 //@   loop 1 invariant InvMaps(a)
 //@   loop 1 invariant InvAllocs(a, true, al)
 //@   loop 1 invariant InvSvc(a, true, svc, al, iter)
 //@   loop 1 invariant InvPorts(a, true, svc, al, iter, 0)
+//@   loop 1 invariant InvKeys(a, true, svc, al)
 //@   loop 2 invariant 0 <= idx(1) && idx(1) < len(al.ips)
 //@   loop 2 invariant InvPorts(a, true, svc, al, idx(1), iter)
 // facts about the pending entry (pure, over the immutable record al)
@@ -140,11 +237,18 @@ package allocator
 //@   assert after delete#3: [holdsStep] forall cur *alloc, s string, x string :: (s != svc || cur == nil) ==> HoldsG(cur, true, svc, al, idx(1) + 1, s, x) == (HoldsG(cur, true, svc, al, idx(1), s, x) && !(s == svc && x == net.ipstr(ip)))
 //@   assert after delete#3: [relAll] forall p Port :: HasPort(al, p) ==> ReleasedPort(al, idx(1), len(al.ports), net.ipstr(ip), p)
 //@   assert after delete#3: [relNone] forall x string, p Port :: !ReleasedPort(al, idx(1) + 1, 0, x, p) && (x != net.ipstr(ip) ==> !ReleasedPort(al, idx(1), len(al.ports), x, p))
+//@   assert after delete#3: [ownNextPure] forall in bool, cur *alloc, s string, x string, p Port :: !(s == svc && x == net.ipstr(ip)) ==>
+//@       OwnsPortG(in, cur, true, svc, al, idx(1) + 1, 0, s, x, p) == OwnsPortG(in, cur, true, svc, al, idx(1), len(al.ports), s, x, p)
+//@   assert after delete#3: [ownFalse] forall cur *alloc, s string, x string, p Port, i2 int, j2 int :: !OwnsPortG(false, cur, true, svc, al, i2, j2, s, x, p)
 //@   assert after delete#3: [svcNext] InvSvc(a, true, svc, al, idx(1) + 1)
 //@   assert after delete#3: [pn1a] forall x string, s string, p Port :: OwnsPortG(s in a.servicesOnIP[x], a.allocated[s], true, svc, al, idx(1) + 1, 0, s, x, p) ==> (p in a.portsInUse[x]) && a.portsInUse[x][p] == s
 //@   assert after delete#3: [pn2a] forall x string, p Port :: { mapdom(mapval(a.portsInUse, x), p) } (p in a.portsInUse[x]) ==>
 //@       OwnsPortG(a.portsInUse[x][p] in a.servicesOnIP[x], a.allocated[a.portsInUse[x][p]], true, svc, al, idx(1) + 1, 0, a.portsInUse[x][p], x, p)
 //@   assert after delete#5: [emptyX] forall p Port :: !pre(p in a.portsInUse[net.ipstr(ip)])
+//@   assert after delete#5: [firstPort] forall cur *alloc :: WFAlloc(cur) ==> HasPort(cur, cur.ports[0])
+//@   assert after delete#5: [noHolder] forall s string :: !(s in a.servicesOnIP[net.ipstr(ip)])
+//@   assert after delete#5: [keysB] InvKeys(a, true, svc, al)
+//@   assert before To4#1: [keysMerge] InvKeys(a, true, svc, al)
 //@   assert before To4#1: [svcMerge] InvSvc(a, true, svc, al, idx(1) + 1)
 //@   assert before To4#1: [portsMerge] InvPorts(a, true, svc, al, idx(1) + 1, 0)
 //@   assert before deleteStatsFor: [pendEnd] forall x string :: !PendingIP(al, len(al.ips), x)
